@@ -657,6 +657,16 @@ class VGen(Gen):
                 t["vals"].pop(i)
                 t["oid"] = self.oid()
                 return t
+        if tt == "inst" and 0.2 <= c < 0.35 and t["cls"]["kind"] in (1, 2):
+            # an instance of a *subclass* of the class: not "an instance of exactly the target class"
+            par = [k for k in self.classes if k["id"] == t["cls"].get("id")]
+            if par:
+                c2 = self.new_class(t["cls"]["kind"], fields=par[0].get("fields") or [], hashable=par[0]["hashable"],
+                                    slots=False, parent=par[0]["id"])
+                t = copy.deepcopy(t)
+                t["cls"] = c2
+                t["oid"] = self.oid()
+                return t
         if tt == "inst" and c < 0.5 and t["cls"]["kind"] in (1, 2):
             # same fields, different class
             c2 = self.new_class(t["cls"]["kind"], fields=[[n, None] for n in t["names"]])
